@@ -1539,3 +1539,328 @@ pub(crate) fn stub_scope_slice_len_overflow_up() {
     let _ = e_slice_len_overflow(&stub);
     kani::cover!(true, "overflowing-length-rejected");
 }
+
+// ------------------------------------------------------------------------------------------------ zero-sized elements with Drop + Clone (C06 / C08)
+pub(crate) static mut Z_CREATED: usize = 0;
+pub(crate) static mut Z_DROPPED: usize = 0;
+
+/// zero-sized, counts constructions (explicit and by `clone`) and drops
+pub(crate) struct Z;
+impl Z {
+    fn new() -> Z {
+        unsafe { Z_CREATED += 1 };
+        Z
+    }
+}
+impl Clone for Z {
+    fn clone(&self) -> Z {
+        Z::new()
+    }
+}
+impl Drop for Z {
+    fn drop(&mut self) {
+        unsafe { Z_DROPPED += 1 };
+    }
+}
+
+/// The growable vectors with a zero-sized element type: no memory is ever requested, capacity is `usize::MAX`, and at
+/// every point the number of drops equals the number of values created minus the number the vector still owns -
+/// values materialised "from nothing" inside the collection must never be dropped (C06), counts follow Vec (C08).
+pub(crate) fn ob_stub_vec_zst<const UP: bool>(kind: u8) {
+    unsafe {
+        Z_CREATED = 0;
+        Z_DROPPED = 0;
+    }
+    let mut stub = StubBump::<UP>::new_at(3);
+    stub.refuse.set(true); // any request for memory would be refused: there must be none
+    macro_rules! body {
+        ($v:ident) => {{
+            kani::assert($v.capacity() == usize::MAX, "C08.zst.capacity_unlimited");
+            kani::assert($v.try_push(Z::new()).is_ok() && $v.try_push(Z::new()).is_ok() && $v.try_push(Z::new()).is_ok(), "C08.zst.push");
+            kani::assert(unsafe { Z_CREATED == 3 && Z_DROPPED == 0 } && $v.len() == 3, "C06.zst.push_moves_the_value");
+            kani::assert($v.try_extend_from_within_clone(1..3).is_ok() && $v.len() == 5, "C08.zst.extend_from_within_clone");
+            kani::assert(unsafe { Z_CREATED == 5 && Z_DROPPED == 0 }, "C06.zst.extend_from_within_clone_creates_by_clone_and_drops_nothing");
+            {
+                let src = [Z::new(), Z::new()];
+                kani::assert($v.try_extend_from_slice_clone(&src).is_ok() && $v.len() == 7, "C08.zst.extend_from_slice_clone");
+            }
+            kani::assert(unsafe { Z_CREATED == 9 && Z_DROPPED == 2 }, "C06.zst.extend_from_slice_clone_leaves_the_source_to_its_owner");
+            kani::assert($v.try_resize(9, Z::new()).is_ok() && $v.len() == 9, "C08.zst.resize_grow");
+            kani::assert(unsafe { Z_CREATED - Z_DROPPED } == 9, "C06.zst.resize_grow_accounts_for_every_value");
+            $v.truncate(8);
+            kani::assert(unsafe { Z_CREATED - Z_DROPPED } == 8 && $v.len() == 8, "C06.zst.truncate_drops_the_tail");
+            let popped = $v.pop();
+            kani::assert(popped.is_some() && unsafe { Z_CREATED - Z_DROPPED } == 8 && $v.len() == 7, "C06.zst.pop_hands_the_value_out");
+            drop(popped);
+            let removed = $v.remove(2);
+            kani::assert(unsafe { Z_CREATED - Z_DROPPED } == 7 && $v.len() == 6, "C06.zst.remove_hands_the_value_out");
+            drop(removed);
+            kani::assert(unsafe { Z_CREATED - Z_DROPPED } == 6, "C06.zst.removed_value_dropped_by_the_caller");
+            kani::assert($v.try_resize(4, Z::new()).is_ok() && $v.len() == 4 && unsafe { Z_CREATED - Z_DROPPED } == 4, "C06.zst.resize_shrink_drops_the_tail_and_the_unused_value");
+            kani::assert($v.try_insert(1, Z::new()).is_ok() && $v.len() == 5 && unsafe { Z_CREATED - Z_DROPPED } == 5, "C06.zst.insert");
+            $v.clear();
+            kani::assert($v.len() == 0 && unsafe { Z_CREATED == Z_DROPPED }, "C06.zst.clear_drops_every_value_once");
+            kani::assert($v.try_push(Z::new()).is_ok(), "C08.zst.push_after_clear");
+        }};
+    }
+    match kind {
+        0 => {
+            let mut v = BumpVec::<Z, _>::new_in(&stub);
+            body!(v);
+            drop(v);
+        }
+        1 => {
+            let mut v = MutBumpVec::<Z, _>::new_in(&mut stub);
+            body!(v);
+            drop(v);
+        }
+        _ => {
+            let mut v = MutBumpVecRev::<Z, _>::new_in(&mut stub);
+            body!(v);
+            drop(v);
+        }
+    }
+    kani::assert(unsafe { Z_CREATED == Z_DROPPED }, "C06.zst.drop_of_the_vector_drops_every_value_once");
+    kani::assert(stub.used() == 3, "C08.zst.no_memory_is_requested");
+    kani::cover!(unsafe { Z_CREATED } >= 13, "ran-to-the-end");
+}
+
+#[kani::proof]
+#[kani::unwind(12)]
+pub(crate) fn stub_vec_zst_bump_vec() {
+    ob_stub_vec_zst::<true>(0);
+}
+#[kani::proof]
+#[kani::unwind(12)]
+pub(crate) fn stub_vec_zst_mut_bump_vec() {
+    ob_stub_vec_zst::<false>(1);
+}
+#[kani::proof]
+#[kani::unwind(12)]
+pub(crate) fn stub_vec_zst_mut_bump_vec_rev() {
+    ob_stub_vec_zst::<true>(2);
+}
+
+// ------------------------------------------------------------------------------------------------ MutBumpString, alloc_iter_mut(_rev)
+use crate::MutBumpString;
+
+/// `MutBumpString` over the exclusive allocator contract: built from a text with a concrete UTF-8 length pattern, one
+/// growing operation (served / refused / new region refused), then `into_boxed_str`: same contents as
+/// std::string::String, valid UTF-8, the committed block is live and accounted; a refused growth changes nothing.
+pub(crate) fn ob_stub_mut_string<const UP: bool>(used: usize, pat: [usize; 2], xpat: [usize; 2], mode: u8, op: u8) {
+    let mut stub = StubBump::<UP>::new_at(used);
+    let probe: *const StubBump<UP> = &stub;
+    let s0 = sym_text(pat);
+    let x = sym_text(xpat);
+    let Ok(mut s) = MutBumpString::try_from_str_in(s0.as_str(), &mut stub) else {
+        kani::assert(false, "C08.mut_string.from_str_that_is_not_refused_succeeds");
+        return;
+    };
+    let mut m = String::from(s0.as_str());
+    let (len1, cap1) = (s.len(), s.capacity());
+    unsafe { (*probe).refuse.set(mode == 1) };
+    unsafe { (*probe).no_new_region.set(mode == 2) };
+    let ok = match op {
+        0 => {
+            let ch = first_char(&x);
+            let ok = s.try_push(ch).is_ok();
+            if ok {
+                m.push(ch);
+            }
+            ok
+        }
+        1 => {
+            let ok = s.try_push_str(x.as_str()).is_ok();
+            if ok {
+                m.push_str(x.as_str());
+            }
+            ok
+        }
+        2 => {
+            let ok = s.try_insert_str(pat[0], x.as_str()).is_ok();
+            if ok {
+                m.insert_str(pat[0], x.as_str());
+            }
+            ok
+        }
+        3 => {
+            let add: usize = kani::any();
+            let ok = s.try_reserve(add).is_ok();
+            if add > isize::MAX as usize {
+                kani::assert(!ok, "C07.mut_string.overflowing_reserve_is_an_error");
+            }
+            if ok {
+                kani::assert(s.capacity() >= len1 + add, "C08.mut_string.reserve_promise");
+            }
+            ok
+        }
+        _ => {
+            let ok = s.try_extend_from_within(..pat[0]).is_ok();
+            if ok {
+                m.extend_from_within(..pat[0]);
+            }
+            ok
+        }
+    };
+    unsafe { (*probe).refuse.set(false) };
+    unsafe { (*probe).no_new_region.set(false) };
+    if !ok {
+        kani::assert(s.len() == len1 && s.capacity() == cap1, "C07.mut_string.failed_growth_changes_neither_length_nor_capacity");
+    }
+    kani::assert(same(s.as_bytes(), m.as_bytes()) && valid_utf8(s.as_bytes()), "C09.mut_string.same_contents_as_std_and_valid_utf8");
+    let b = s.into_boxed_str();
+    kani::assert(same(b.as_bytes(), m.as_bytes()) && valid_utf8(b.as_bytes()), "C09.mut_string.into_boxed_str.same_contents_and_valid_utf8");
+    let st = unsafe { &*probe };
+    kani::assert(b.len() == 0 || st.owns(b.as_ptr() as usize, b.len()), "C17.mut_string.into_boxed_str.block_is_live");
+    kani::assert(st.used() >= used + b.len(), "C17.mut_string.committed_bytes_are_accounted");
+    core::mem::forget(b);
+    kani::cover!(ok == (mode == 0) || op == 3, "served-or-refused");
+}
+
+macro_rules! stubmutstr {
+    ($($name:ident: $up:expr, $used:expr, [$a:expr, $b:expr], [$xa:expr, $xb:expr], $mode:expr, $op:expr;)*) => {$(
+        #[kani::proof]
+        #[kani::unwind(12)]
+        pub(crate) fn $name() {
+            ob_stub_mut_string::<$up>($used, [$a, $b], [$xa, $xb], $mode, $op);
+        }
+    )*};
+}
+// `used` = 60: the first region has 4 bytes left, so the text fills it and the operation has to move to the newer region
+stubmutstr! {
+    stub_mut_str_push_up: true, 60, [2, 2], [3, 0], 0, 0;
+    stub_mut_str_push_dn: false, 60, [1, 3], [2, 0], 0, 0;
+    stub_mut_str_push_refused_up: true, 60, [3, 1], [4, 0], 1, 0;
+    stub_mut_str_push_str_up: true, 60, [4, 0], [1, 2], 0, 1;
+    stub_mut_str_push_str_dn: false, 60, [2, 2], [3, 1], 0, 1;
+    stub_mut_str_push_str_no_region_dn: false, 60, [1, 3], [2, 2], 2, 1;
+    stub_mut_str_insert_str_up: true, 60, [1, 3], [2, 1], 0, 2;
+    stub_mut_str_insert_str_dn: false, 60, [3, 1], [1, 1], 0, 2;
+    stub_mut_str_insert_str_refused_dn: false, 60, [2, 2], [4, 0], 1, 2;
+    stub_mut_str_reserve_up: true, 60, [2, 1], [0, 0], 0, 3;
+    stub_mut_str_reserve_refused_dn: false, 60, [1, 2], [0, 0], 1, 3;
+    stub_mut_str_extend_within_up: true, 60, [2, 2], [0, 0], 0, 4;
+    stub_mut_str_extend_within_no_region_dn: false, 60, [3, 1], [0, 0], 2, 4;
+}
+
+/// `try_alloc_iter_mut` / `try_alloc_iter_mut_rev` (provided methods of `MutBumpAllocatorTypedScope`): the slice holds
+/// the items in iteration order (reversed for `_rev`), is a live aligned block, and nothing else stays allocated.
+pub(crate) fn ob_stub_iter_mut<const UP: bool>(used: usize, rev: bool, refused: bool) {
+    let mut stub = StubBump::<UP>::new_at(used);
+    let probe: *const StubBump<UP> = &stub;
+    stub.refuse.set(refused);
+    let src: [u16; 3] = kani::any();
+    let r = if rev { (&mut stub).try_alloc_iter_mut_rev(src) } else { (&mut stub).try_alloc_iter_mut(src) };
+    let st = unsafe { &*probe };
+    match r {
+        Ok(b) => {
+            kani::assert(!refused, "C07.alloc_iter_mut.refused_is_an_error");
+            kani::assert(b.len() == 3, "C17.alloc_iter_mut.length");
+            if rev {
+                kani::assert(b[0] == src[2] && b[1] == src[1] && b[2] == src[0], "C17.alloc_iter_mut_rev.items_in_reverse_order");
+            } else {
+                kani::assert(b[0] == src[0] && b[1] == src[1] && b[2] == src[2], "C17.alloc_iter_mut.items_in_order");
+            }
+            kani::assert(st.owns(b.as_ptr() as usize, 6) && al(b.as_ptr() as usize, 2), "C01.alloc_iter_mut.block_live_and_aligned");
+            kani::assert(st.used() >= used + 6 && st.used() <= used + 6 + 1, "C15.alloc_iter_mut.exactly_the_slice_stays_allocated");
+            core::mem::forget(b);
+        }
+        Err(_) => {
+            kani::assert(st.used() == used, "C07.alloc_iter_mut.error_leaves_nothing_allocated");
+        }
+    }
+    kani::cover!(true, "ran");
+}
+
+macro_rules! stubitermut {
+    ($($name:ident: $up:expr, $used:expr, $rev:expr, $refused:expr;)*) => {$(
+        #[kani::proof]
+        #[kani::unwind(10)]
+        pub(crate) fn $name() {
+            ob_stub_iter_mut::<$up>($used, $rev, $refused);
+        }
+    )*};
+}
+stubitermut! {
+    stub_iter_mut_up: true, 1, false, false;
+    stub_iter_mut_dn: false, 3, false, false;
+    stub_iter_mut_rev_up: true, 3, true, false;
+    stub_iter_mut_rev_dn: false, 1, true, false;
+    stub_iter_mut_refused_up: true, 0, false, true;
+    stub_iter_mut_rev_refused_dn: false, 0, true, true;
+}
+
+// (`try_from_utf8_lossy_in` against `String::from_utf8_lossy` was tried for concrete shapes: no verdict within 900 s.)
+
+// ------------------------------------------------------------------------------------------------ panicking twin == try_ twin (C17)
+/// an `ExactSizeIterator` that promises `claimed` items and yields `n` (the trait allows a wrong `len()`; nothing unsafe may follow)
+pub(crate) struct Lying {
+    vals: [u16; 4],
+    i: usize,
+    n: usize,
+    claimed: usize,
+}
+impl Iterator for Lying {
+    type Item = u16;
+    fn next(&mut self) -> Option<u16> {
+        if self.i < self.n {
+            self.i += 1;
+            Some(self.vals[self.i - 1])
+        } else {
+            None
+        }
+    }
+    fn size_hint(&self) -> (usize, Option<usize>) {
+        let r = self.claimed - self.i.min(self.claimed);
+        (r, Some(r))
+    }
+}
+impl ExactSizeIterator for Lying {}
+
+/// Each panicking method and its `try_` twin, started from the same state: same block (offset inside the region), same
+/// number of bytes handed out afterwards, same contents (C17: the twins are interchangeable).
+pub(crate) fn ob_stub_twins<const UP: bool>(used: usize, f_try: impl FnOnce(&mut StubBump<UP>) -> (usize, usize), f_pan: impl FnOnce(&mut StubBump<UP>) -> (usize, usize)) {
+    let mut s1 = StubBump::<UP>::new_at(used);
+    let mut s2 = StubBump::<UP>::new_at(used);
+    let (a1, h1) = f_try(&mut s1);
+    let (a2, h2) = f_pan(&mut s2);
+    kani::assert(a1 - s1.base() == a2 - s2.base(), "C17.twins.same_block");
+    kani::assert(s1.used() == s2.used() && s1.in_second_region() == s2.in_second_region(), "C17.twins.same_bytes_handed_out");
+    kani::assert(h1 == h2, "C17.twins.same_contents");
+    kani::cover!(true, "ran");
+}
+
+fn sum3(b: &[u16]) -> usize {
+    let mut h = b.len();
+    let mut i = 0;
+    while i < b.len() && i < 4 {
+        h = h.wrapping_mul(31).wrapping_add(b[i] as usize);
+        i += 1;
+    }
+    h
+}
+
+macro_rules! twins {
+    ($($name:ident: $up:expr, $used:expr, |$s:ident, $v:ident| $try_e:expr, $pan_e:expr;)*) => {$(
+        #[kani::proof]
+        #[kani::unwind(10)]
+        pub(crate) fn $name() {
+            let $v: [u16; 4] = kani::any();
+            ob_stub_twins::<$up>($used, |$s| { let b = $try_e; let r = (b.as_ptr() as usize, sum3(&b)); core::mem::forget(b); r }, |$s| { let b = $pan_e; let r = (b.as_ptr() as usize, sum3(&b)); core::mem::forget(b); r });
+        }
+    )*};
+}
+twins! {
+    stub_twins_slice_copy_up: true, 1, |s, v| (&*s).try_alloc_slice_copy(&v[..3]).unwrap(), (&*s).alloc_slice_copy(&v[..3]);
+    stub_twins_slice_copy_dn: false, 3, |s, v| (&*s).try_alloc_slice_copy(&v[..3]).unwrap(), (&*s).alloc_slice_copy(&v[..3]);
+    stub_twins_slice_fill_with_dn: false, 1, |s, v| (&*s).try_alloc_slice_fill_with(3, || v[1]).unwrap(), (&*s).alloc_slice_fill_with(3, || v[1]);
+    stub_twins_iter_up: true, 1, |s, v| (&*s).try_alloc_iter(v).unwrap(), (&*s).alloc_iter(v);
+    stub_twins_iter_dn: false, 1, |s, v| (&*s).try_alloc_iter(v).unwrap(), (&*s).alloc_iter(v);
+    stub_twins_iter_exact_up: true, 3, |s, v| (&*s).try_alloc_iter_exact(v).unwrap(), (&*s).alloc_iter_exact(v);
+    stub_twins_iter_exact_dn: false, 0, |s, v| (&*s).try_alloc_iter_exact(v).unwrap(), (&*s).alloc_iter_exact(v);
+    stub_twins_iter_exact_short_up: true, 1, |s, v| (&*s).try_alloc_iter_exact(Lying { vals: v, i: 0, n: 2, claimed: 4 }).unwrap(), (&*s).alloc_iter_exact(Lying { vals: v, i: 0, n: 2, claimed: 4 });
+    stub_twins_iter_exact_short_dn: false, 1, |s, v| (&*s).try_alloc_iter_exact(Lying { vals: v, i: 0, n: 2, claimed: 4 }).unwrap(), (&*s).alloc_iter_exact(Lying { vals: v, i: 0, n: 2, claimed: 4 });
+    stub_twins_iter_exact_long_dn: false, 0, |s, v| (&*s).try_alloc_iter_exact(Lying { vals: v, i: 0, n: 4, claimed: 2 }).unwrap(), (&*s).alloc_iter_exact(Lying { vals: v, i: 0, n: 4, claimed: 2 });
+    stub_twins_iter_mut_up: true, 1, |s, v| (&mut *s).try_alloc_iter_mut(v).unwrap(), (&mut *s).alloc_iter_mut(v);
+    stub_twins_iter_mut_rev_dn: false, 1, |s, v| (&mut *s).try_alloc_iter_mut_rev(v).unwrap(), (&mut *s).alloc_iter_mut_rev(v);
+}
